@@ -169,6 +169,147 @@ def gen(rng, tier):
     return progs, cases, hist
 
 
+# ---------------------------------------------------------------------------------------------------------
+# kind 3: mdspan over user layouts (C13: size / empty over index spaces larger than any span; C07 / C13: forwarding of the observers)
+# ---------------------------------------------------------------------------------------------------------
+def gen_views(rng, tier):
+    progs, cases = [], []
+    hist = collections.Counter()
+    n = scaled(90 if tier == "quick" else 600)
+    tries = 0
+    seen = set()
+    while len(cases) < n and tries < n * 40:
+        tries += 1
+        t = rng.randrange(8)
+        B, M = BITS[t], imax(t)
+        mode = rng.choice(["wrap0", "wrap0", "above_imax", "small", "zero", "rank0", "wrapk"])
+        if mode == "rank0":
+            es = []
+        elif mode in ("wrap0", "wrapk"):
+            # powers of two whose product is exactly 2^B: wraps to 0 in size_type although no extent is 0 (wrap0);
+            # with one extent incremented the product wraps to a non-zero value (wrapk)
+            R = rng.choice([2, 2, 3, 4])
+            cap = B - 2 if t % 2 == 0 else B - 1
+            parts = None
+            for _ in range(50):
+                cuts = sorted(rng.randrange(0, B + 1) for _ in range(R - 1))
+                cand = [b - a for a, b in zip([0] + cuts, cuts + [B])]
+                if all(x <= cap for x in cand):
+                    parts = cand; break
+            if parts is None:
+                continue
+            es = [1 << a for a in parts]
+            if mode == "wrapk":
+                q = rng.randrange(R)
+                if es[q] + 1 > M:
+                    continue
+                es[q] += 1
+        elif mode == "above_imax":
+            # product above imax(index_type) but below 2^B: size() needs the unsigned size_type
+            R = 2
+            a = rng.randrange(1, B - 1)
+            es = [1 << a, 1 << (B - 1 - a)] if t % 2 == 0 else [1 << a, (1 << (B - a)) - 1]
+        elif mode == "zero":
+            R = rng.choice([1, 2, 3])
+            es = [rng.choice([0, 1, 2, M]) for _ in range(R)]
+            es[rng.randrange(R)] = 0
+        else:
+            R = rng.choice([1, 2, 3])
+            es = [rng.choice([1, 2, 3, 5]) for _ in range(R)]
+        if any(e > M for e in es):
+            continue
+        pat = tuple(e if (rng.random() < 0.35 and e < (1 << 62)) else DYN for e in es)
+        key = (t, pat, tuple(es))
+        if key in seen:
+            continue
+        seen.add(key)
+        pr = Prog("drv::run_ext_view<%s>(caseno, tk)" % ext_type(t, pat), "view over user layouts, %s" % ext_type(t, pat))
+        progs.append(pr)
+        prod = 1
+        for e in es:
+            prod *= e
+        cases.append((pr, [None, 3, t, len(es)] + list(pat) + list(es), {"kind": "view", "t": t, "pat": pat, "es": es, "prod": prod, "bits": B}))
+        hist["view %s" % mode] += 1
+        if es and 0 not in es and prod % (1 << B) == 0:
+            hist["view: product of non-zero extents is a multiple of 2^bits(size_type)"] += 1
+    for k, p_ in enumerate(progs):
+        p_.id = k
+    for c in cases:
+        c[1][0] = c[0].id
+    return progs, cases, hist
+
+
+def judge_view(r, cfg):
+    md, im, meta = r["model"], r["impl"].get(cfg), r["meta"]
+    out = []
+    if im is None:
+        return out
+    if "crash" in r and cfg in r["crash"]:
+        return [("crash", "implementation terminated abnormally: " + r["crash"][cfg]["stderr"], True)]
+    if any(v == "UB" for v in md.values()):
+        return [("model", "model reports UB on a generated valid input", False)]
+    for f in md:
+        if f == "sz" and meta["prod"] >= (1 << meta["bits"]):
+            continue            # size() has the precondition that the size of the index space is representable in size_type
+        if md[f] != im.get(f):
+            what = {"sz": "mdspan::size() is not the product of the extents in size_type", "emp": "mdspan::empty() is not 'some extent is 0'",
+                    "ext": "mdspan::extent(r) differs from the extents it was built from",
+                    "fw": "mdspan does not forward is_unique / is_exhaustive / is_strided / is_always_* from its mapping (three user layouts x six observers)"}.get(f, f)
+            out.append((f, "%s: implementation %s, specified %s (extents %s)" % (what, im.get(f), md[f], meta["es"]), True))
+    return out
+
+
+def collect_views(rep, prop, tier, seed, exe, replay=None):
+    rng = random.Random(seed * 7907 + 11)
+    configs = pick_configs(["gcc23", "clang17", "gcc14"] if tier == "quick" else ["gcc23", "clang17", "gcc20", "clang20", "gcc17", "gcc14", "clang14", "gcc23-dbg", "clang17-emu"])
+    if replay:
+        rp = json.load(open(replay))
+        pr = Prog(rp["call"], rp["program"]); pr.id = rp["case_tokens"][0]
+        progs, cases, hist = [pr], [(pr, rp["case_tokens"], rp.get("meta", {}))], {}
+        configs = [rp["config"]]
+    else:
+        progs, cases, hist = gen_views(rng, tier)
+    work = os.path.join(CACHE, "work", "%s-%s-views" % (prop, tier))
+    records, build_fail = run_programs("X", "drv_ext.hpp", progs, cases, configs, work, exe, nshards=8, name="view")
+    for (sh_, cfg, blog) in {c: (s_, c, l) for (s_, c, l) in reversed(build_fail)}.values():
+        rep.violation("user-layout view driver shard %d no longer builds in configuration %s" % (sh_, cfg),
+                      {"obligation": "corr:view/build/%d/%s" % (sh_, cfg), "log": blog[-3000:], "signature": "build:view:%s" % cfg}, True)
+    evaluations, flagged, nontriv = 0, [], set()
+    for r in records:
+        for cfg in configs:
+            if r["impl"].get(cfg) is None:
+                continue
+            evaluations += 1
+            iss = judge_view(r, cfg)
+            if prop == "C07":
+                iss = [x for x in iss if x[0] in ("fw", "crash", "model")]
+            if iss:
+                flagged.append((r, cfg, iss))
+        m = r["meta"]
+        if len(m.get("es", [])) >= 2:
+            nontriv.add((m["t"], tuple(m["pat"]), tuple(m["es"])))
+    flagged.sort(key=lambda x: len(x[0]["toks"]))
+    seen = set()
+    for (r, cfg, iss) in flagged:
+        if iss[0][0] in seen:
+            continue
+        seen.add(iss[0][0])
+        rep.violation(iss[0][1], {"family": "X", "config": cfg, "program": r["prog"].desc, "call": r["prog"].call,
+                                  "case_tokens": r["toks"], "meta": r["meta"], "model_line": r["model_line"],
+                                  "impl_line": r["impl_line"].get(cfg, ""), "issues": [{"field": f, "message": m} for (f, m, _) in iss],
+                                  "signature": "X:%s:%s" % (r["prog"].desc, iss[0][0])}, no_failing_input=not any(x[2] for x in iss))
+    return {
+        "evaluations": evaluations, "distinct_nontrivial": len(nontriv),
+        "rule": "views over user layouts: extents types (8 index types, rank 0-5, seeded static/dynamic patterns) with values whose product is a multiple of "
+                "2^bits(size_type), exceeds imax(index_type), is small, or contains a zero; size() judged only when the product is representable in size_type; "
+                "observers forwarded from three layouts with fixed, pairwise distinguishing answers",
+        "programs": len(progs) * len(configs), "configurations": configs, "disagreements_checked": len(flagged),
+        "input_distribution": dict(sorted(hist.items())) if hist else {},
+        "samples": [{"case": r["case_line"], "program": r["prog"].desc, "model": r["model_line"]} for r in records[:: max(1, len(records) // 3)][:3]],
+        "family": "X",
+    }
+
+
 def judge(r, cfg):
     md, im = r["model"], r["impl"].get(cfg)
     out = []
